@@ -1335,3 +1335,369 @@ func c18NoAssertOnText(c *Ctx, r *Report) {
 	r.OK("R18.15", "assertions examined", "", fmt.Sprintf("%d InternalCodingErrorIf calls", n))
 	r.Floor("R18.15", "InternalCodingErrorIf calls", n, 100)
 }
+
+// R18.16: the line reader never gets an empty separator. NewLineReader
+// panics on one ("Empty IRS"). Its callers hand it a constant or a field of
+// the reader options; for each such field, option finalisation refuses the
+// empty string before any reader is built.
+func c18LineReaderSeparator(c *Ctx, r *Report) {
+	r.Rule("R18.16", "the line reader never gets an empty separator: every call of input.NewLineReader (which panics on \"\") passes a non-empty constant or a field of the reader options for which cli.FinalizeReaderOptions has a test field == \"\" leading to an error return — the XTAB reader passes IFS, not IRS")
+	var nlr *ssa.Function
+	if tf := c.LookupFunc("pkg/input", "NewLineReader"); tf != nil {
+		nlr = c.SSAFunc(tf)
+	}
+	var fin *ssa.Function
+	if tf := c.LookupFunc("pkg/cli", "FinalizeReaderOptions"); tf != nil {
+		fin = c.SSAFunc(tf)
+	}
+	if nlr == nil || fin == nil || fin.Blocks == nil {
+		r.Undecided("R18.16", "anchors", "", "NewLineReader or FinalizeReaderOptions not found")
+		return
+	}
+	// fields refused when empty
+	refused := map[string]bool{}
+	for _, b := range fin.Blocks {
+		iff, ok := b.Instrs[len(b.Instrs)-1].(*ssa.If)
+		if !ok {
+			continue
+		}
+		cmp, ok := iff.Cond.(*ssa.BinOp)
+		if !ok || cmp.Op != token.EQL {
+			continue
+		}
+		k, isK := cmp.Y.(*ssa.Const)
+		if !isK || k.Value == nil || k.Value.Kind() != constant.String || constant.StringVal(k.Value) != "" {
+			continue
+		}
+		_, fname, ok := fieldLoadName(cmp.X)
+		if !ok {
+			continue
+		}
+		// the true edge reaches a return of a non-nil error without passing another test's false edge … keep it simple: some return of a non-nil error is reachable from the true successor and not from the false one
+		errFromTrue, errFromFalse := false, false
+		for _, b2 := range fin.Blocks {
+			ret, ok := b2.Instrs[len(b2.Instrs)-1].(*ssa.Return)
+			if !ok || ReturnsNilError(ret) {
+				continue
+			}
+			if b2 == b.Succs[0] || (blockReaches(b.Succs[0], b2) && !b.Succs[1].Dominates(b2) && b.Succs[0].Dominates(b2)) {
+				errFromTrue = true
+			}
+			if b2 == b.Succs[1] {
+				errFromFalse = true
+			}
+		}
+		if errFromTrue && !errFromFalse {
+			refused[fname] = true
+		}
+	}
+	n := 0
+	for _, fn := range c.ModuleFunctions() {
+		if fn.Blocks == nil {
+			continue
+		}
+		k := 0
+		for _, b := range fn.Blocks {
+			for _, in := range b.Instrs {
+				call, ok := in.(*ssa.Call)
+				if !ok || call.Call.StaticCallee() != nlr || len(call.Call.Args) < 2 {
+					continue
+				}
+				n++
+				k++
+				key := fmt.Sprintf("%s: NewLineReader #%d", SSAName(fn), k)
+				sep := call.Call.Args[1]
+				if kc, ok := sep.(*ssa.Const); ok {
+					ne := kc.Value != nil && kc.Value.Kind() == constant.String && constant.StringVal(kc.Value) != ""
+					r.Check(ne, "R18.16", key, c.Rel(call.Pos()), "non-empty constant", "NewLineReader is handed the empty string: it panics")
+					continue
+				}
+				_, fname, ok := fieldLoadName(sep)
+				if !ok {
+					r.Undecided("R18.16", key, c.Rel(call.Pos()), "the separator is neither a constant nor a field of the reader options")
+					continue
+				}
+				r.Check(refused[fname], "R18.16", key, c.Rel(call.Pos()), "FinalizeReaderOptions refuses an empty "+fname,
+					fmt.Sprintf("%s hands NewLineReader the reader option %s, and FinalizeReaderOptions has no test that refuses an empty %s: with --%s '' the line reader panics (\"Empty IRS\")", SSAName(fn), fname, fname, strings.ToLower(fname)))
+			}
+		}
+	}
+	r.Floor("R18.16", "calls of NewLineReader", n, 6)
+}
+
+// R18.17: an index made from a float is made from a number. int(NaN) is the
+// minimum int on amd64; a test "x < 0" does not catch NaN because every
+// ordered comparison with NaN is false. So where a slice index is computed by
+// converting a float64, either the integer is bounded below by an integer
+// test, or the float has passed the TRUE side of an ordered comparison (or a
+// math.IsNaN test) on every path.
+func c18FloatIndex(c *Ctx, r *Report) {
+	r.Rule("R18.17", "an index made from a float is an integer between integer bounds: where a slice/array/string index derives (by adding constants and integer conversions) from the conversion of a float64, the integer has a lower-bound test on the way (i >= c, i < c on the false side …), or the converted float (through math.Floor/Ceil/Trunc/Round) is, on every path, a constant or a value that has passed the true side of an ordered comparison or the false side of math.IsNaN — a NaN passes every 'x < 0' clamp on the false side and converts to the minimum int; and the integer has an upper-bound test as well (i < n, i >= n on the false side): value < hi does not keep (value - lo) * n / (hi - lo) below n")
+	isRound := func(name string) bool {
+		switch name {
+		case "math.Floor", "math.Ceil", "math.Trunc", "math.Round", "math.RoundToEven":
+			return true
+		}
+		return false
+	}
+	trueSideMentions := func(cond ssa.Value, pol bool, v ssa.Value) bool {
+		cond, pol = stripNot(cond, pol)
+		switch x := cond.(type) {
+		case *ssa.BinOp:
+			switch x.Op {
+			case token.LSS, token.LEQ, token.GTR, token.GEQ, token.EQL:
+				return pol && (x.X == v || x.Y == v)
+			case token.NEQ:
+				return !pol && (x.X == v || x.Y == v)
+			}
+		case *ssa.Call:
+			if CalleeName(&x.Call) == "math.IsNaN" && len(x.Call.Args) == 1 && x.Call.Args[0] == v {
+				return !pol
+			}
+		}
+		return false
+	}
+	var isNumber func(v ssa.Value, at *ssa.BasicBlock, depth int) bool
+	isNumber = func(v ssa.Value, at *ssa.BasicBlock, depth int) bool {
+		if depth > 6 {
+			return false
+		}
+		if k, ok := v.(*ssa.Const); ok {
+			_ = k
+			return true
+		}
+		for _, g := range GuardsAt(at) {
+			if trueSideMentions(g.Cond, g.Polarity, v) {
+				return true
+			}
+		}
+		switch x := v.(type) {
+		case *ssa.Call:
+			if isRound(CalleeName(&x.Call)) {
+				return isNumber(x.Call.Args[0], at, depth+1)
+			}
+		case *ssa.Convert:
+			// float64(an integer) is a number
+			if isIntegerType(x.X.Type()) {
+				return true
+			}
+		case *ssa.Phi:
+			for i, e := range x.Edges {
+				p := x.Block().Preds[i]
+				ok := isNumber(e, p, depth+1)
+				if !ok {
+					if iff, isIf := p.Instrs[len(p.Instrs)-1].(*ssa.If); isIf {
+						ok = trueSideMentions(iff.Cond, p.Succs[0] == x.Block(), e)
+					}
+				}
+				if !ok {
+					return false
+				}
+			}
+			return true
+		}
+		return false
+	}
+	lowerBounded := func(chain []ssa.Value, at *ssa.BasicBlock) bool {
+		for _, g := range GuardsAt(at) {
+			cond, pol := stripNot(g.Cond, g.Polarity)
+			cmp, ok := cond.(*ssa.BinOp)
+			if !ok {
+				continue
+			}
+			for _, v := range chain {
+				x, op := cmp.X, cmp.Op
+				if cmp.Y == v {
+					x, op = cmp.Y, mirrorTok(op)
+				}
+				if x != v {
+					continue
+				}
+				switch {
+				case (op == token.GEQ || op == token.GTR) && pol:
+					return true
+				case (op == token.LSS || op == token.LEQ) && !pol:
+					return true
+				case op == token.EQL && pol:
+					return true
+				}
+			}
+		}
+		return false
+	}
+	upperBounded := func(chain []ssa.Value, at *ssa.BasicBlock) bool {
+		for _, g := range GuardsAt(at) {
+			cond, pol := stripNot(g.Cond, g.Polarity)
+			cmp, ok := cond.(*ssa.BinOp)
+			if !ok {
+				continue
+			}
+			for _, v := range chain {
+				x, op := cmp.X, cmp.Op
+				if cmp.Y == v {
+					x, op = cmp.Y, mirrorTok(op)
+				}
+				if x != v {
+					continue
+				}
+				switch {
+				case (op == token.LSS || op == token.LEQ) && pol:
+					return true
+				case (op == token.GEQ || op == token.GTR) && !pol:
+					return true
+				case op == token.EQL && pol:
+					return true
+				}
+			}
+		}
+		return false
+	}
+	n := 0
+	for _, fn := range c.ModuleFunctions() {
+		if fn.Pkg == nil || fn.Blocks == nil {
+			continue
+		}
+		pp := fn.Pkg.Pkg.Path()
+		if !(strings.HasSuffix(pp, "/pkg/bifs") || strings.Contains(pp, "/pkg/transformers") || strings.HasSuffix(pp, "/pkg/lib") || strings.HasSuffix(pp, "/pkg/mlrval") || strings.HasSuffix(pp, "/pkg/dsl/cst")) {
+			continue
+		}
+		k := 0
+		for _, b := range fn.Blocks {
+			for _, in := range b.Instrs {
+				var idx ssa.Value
+				switch x := in.(type) {
+				case *ssa.IndexAddr:
+					idx = x.Index
+				case *ssa.Index:
+					idx = x.Index
+				default:
+					continue
+				}
+				// back to a float conversion
+				var chain []ssa.Value
+				var cv *ssa.Convert
+				v := idx
+				for d := 0; d < 8 && v != nil; d++ {
+					chain = append(chain, v)
+					switch y := v.(type) {
+					case *ssa.BinOp:
+						if _, isK := y.Y.(*ssa.Const); isK && (y.Op == token.ADD || y.Op == token.SUB) {
+							v = y.X
+							continue
+						}
+						v = nil
+					case *ssa.Convert:
+						if isFloat64(y.X.Type()) {
+							cv = y
+							v = nil
+						} else {
+							v = y.X
+						}
+					default:
+						v = nil
+					}
+				}
+				if cv == nil {
+					continue
+				}
+				n++
+				k++
+				key := fmt.Sprintf("%s: index from a float #%d", SSAName(fn), k)
+				ok := lowerBounded(chain, b) || isNumber(cv.X, cv.Block(), 0)
+				if ok && !upperBounded(chain, b) {
+					r.Fail("R18.17", key, c.Rel(in.Pos()), fmt.Sprintf("%s indexes with an integer converted from a float64 and there is no integer test of it against an upper bound on the way: a float test such as value < hi does not bound the scaled product, which can round up to the length itself", SSAName(fn)))
+					continue
+				}
+				r.Check(ok, "R18.17", key, c.Rel(in.Pos()), "the integer is bounded below (or the float is known to be a number) and bounded above",
+					fmt.Sprintf("%s indexes with an integer converted from a float64 that can be NaN on the way here (no true side of an ordered comparison, no math.IsNaN test), and the integer has no lower-bound test: int(NaN) is the minimum int and the index panics", SSAName(fn)))
+			}
+		}
+	}
+	r.Floor("R18.17", "indexes derived from float conversions", n, 1)
+}
+
+// R18.18: recursion driven by the input has a bound. A function that reads
+// JSON tokens and calls itself once per nesting level recurses as deep as the
+// input says; Go's stack overflow is not a panic that can be caught. Such a
+// function carries a depth and refuses beyond a constant.
+func c18BoundedRecursion(c *Ctx, r *Report) {
+	r.Rule("R18.18", "recursion driven by the input has a bound: a function that takes a *json.Decoder and calls itself passes an integer parameter increased by a constant on every self-call and compares that parameter with a constant before going on (a return on the far side) — three million '[' would otherwise end the process with a stack overflow, which no recover() catches")
+	n := 0
+	for _, fn := range c.ModuleFunctions() {
+		if fn.Pkg == nil || fn.Blocks == nil {
+			continue
+		}
+		hasDecoder := false
+		for _, p := range fn.Params {
+			if strings.HasSuffix(p.Type().String(), "encoding/json.Decoder") {
+				hasDecoder = true
+			}
+		}
+		if !hasDecoder {
+			continue
+		}
+		var selfCalls []*ssa.Call
+		for _, b := range fn.Blocks {
+			for _, in := range b.Instrs {
+				if call, ok := in.(*ssa.Call); ok && call.Call.StaticCallee() == fn {
+					selfCalls = append(selfCalls, call)
+				}
+			}
+		}
+		if len(selfCalls) == 0 {
+			continue
+		}
+		n++
+		key := SSAName(fn) + ": self-recursion on JSON tokens"
+		// a parameter that grows on every self-call
+		var depth *ssa.Parameter
+		for pi, p := range fn.Params {
+			if !isIntegerType(p.Type()) {
+				continue
+			}
+			all := true
+			for _, sc := range selfCalls {
+				bo, ok := sc.Call.Args[pi].(*ssa.BinOp)
+				if !ok || bo.Op != token.ADD || bo.X != ssa.Value(p) {
+					all = false
+					break
+				}
+				if k, ok := bo.Y.(*ssa.Const); !ok || k.Value == nil || constant.Sign(k.Value) <= 0 {
+					all = false
+					break
+				}
+			}
+			if all {
+				depth = p
+			}
+		}
+		if depth == nil {
+			r.Fail("R18.18", key, c.Rel(fn.Pos()), fmt.Sprintf("%s calls itself once per nesting level of its JSON input and carries no depth that grows with each call: the input decides how deep the Go stack goes", SSAName(fn)))
+			continue
+		}
+		// every self-call is dominated by a comparison of depth with a constant whose other side returns
+		okAll := true
+		for _, sc := range selfCalls {
+			guarded := false
+			for _, g := range GuardsAt(sc.Block()) {
+				cond, pol := stripNot(g.Cond, g.Polarity)
+				cmp, ok := cond.(*ssa.BinOp)
+				if !ok || cmp.X != ssa.Value(depth) {
+					continue
+				}
+				if _, isK := cmp.Y.(*ssa.Const); !isK {
+					continue
+				}
+				if ((cmp.Op == token.GTR || cmp.Op == token.GEQ) && !pol) || ((cmp.Op == token.LSS || cmp.Op == token.LEQ) && pol) {
+					guarded = true
+				}
+			}
+			if !guarded {
+				okAll = false
+			}
+		}
+		r.Check(okAll, "R18.18", key, c.Rel(fn.Pos()), "depth parameter "+depth.Name()+" grows per call and is compared with a constant",
+			fmt.Sprintf("%s carries a depth but a self-call is reached with no test of it against a constant on the way", SSAName(fn)))
+	}
+	r.Floor("R18.18", "self-recursive JSON token readers", n, 1)
+}
